@@ -22,6 +22,13 @@ def nontrivial(h):
 
 
 def run(ctx):
+    try:
+        run_checked(ctx)
+    except sc.KeyUnfaithful as e:
+        sc.unfaithful_violation(ctx, e)
+
+
+def run_checked(ctx):
     ctx.add_obligations(vcheck.coq_props("Store", "C02"))
     ctx.cov["checker_cmd"] = ("coqc -Q coq/Store BWStore coq/Store/Props/C02.v; work/bin/h_store -mode hist -c02 | "
                               "coqc work/C02/cases_*.v (digest of all_queries x default options per state, vm_compute)")
